@@ -299,6 +299,34 @@ func runTableConformance(L *Loaded, prop string, tmo, seed int) ([]*Obligation, 
 			np++
 		}
 		nr := sig.Results().Len()
+		if os.Getenv("GOVC_TABLESTATS") != "" {
+			for p := 0; p < np; p++ {
+				var pt types.Type
+				if sig.Recv() != nil {
+					if p == 0 {
+						pt = sig.Recv().Type()
+					} else {
+						pt = sig.Params().At(p - 1).Type()
+					}
+				} else {
+					pt = sig.Params().At(p).Type()
+				}
+				tgt := 0
+				if p < len(e.rets) {
+					tgt += len(e.rets[p])
+				}
+				if p < len(e.args) {
+					for _, d := range e.args[p] {
+						if d != p {
+							tgt++
+						}
+					}
+				}
+				if tgt == 0 {
+					fmt.Fprintf(os.Stderr, "DROPPED %s pos %d type %s results %d sig %s\n", e.key, p, pt, nr, sig)
+				}
+			}
+		}
 		var sb strings.Builder
 		sb.WriteString("; table conformance of " + e.key + " : " + sig.String() + "\n")
 		sb.WriteString(fmt.Sprintf("(declare-const nparams Int)\n(declare-const nresults Int)\n(assert (= nparams %d))\n(assert (= nresults %d))\n", np, nr))
@@ -316,9 +344,9 @@ func runTableConformance(L *Loaded, prop string, tmo, seed int) ([]*Obligation, 
 		}
 		sb.WriteString("(assert (not " + and(goals...) + "))\n(check-sat)\n")
 		o := &Obligation{Name: fmt.Sprintf("%s.table.%s", prop, e.key), Kind: "table", Func: summariesPkg + "." + e.table,
-			Clause:  fmt.Sprintf("every position listed for %s (Args %v, Rets %v) exists in its signature %s (params incl. receiver: %d, results: %d)", e.key, e.args, e.rets, sig.String(), np, nr),
-			Where:   fmt.Sprintf("%s:%d", strings.TrimPrefix(e.pos.Filename, repoDir+"/"), e.pos.Line),
-			Hyp:     "true", Goal: and(goals...), Witness: e.key, Props: []string{prop}}
+			Clause: fmt.Sprintf("every position listed for %s (Args %v, Rets %v) exists in its signature %s (params incl. receiver: %d, results: %d)", e.key, e.args, e.rets, sig.String(), np, nr),
+			Where:  fmt.Sprintf("%s:%d", strings.TrimPrefix(e.pos.Filename, repoDir+"/"), e.pos.Line),
+			Hyp:    "true", Goal: and(goals...), Witness: e.key, Props: []string{prop}}
 		o.Script = sb.String()
 		obls = append(obls, o)
 		jobs = append(jobs, job{o: o, script: o.Script, tmo: tmo})
